@@ -17,4 +17,30 @@ PROPS = {
                        "of appends and confined patches, string layout, UTF-16 round trip for every string); the model is tied to the code by "
                        "running identical operation histories on the real Buffer/MemoryWriter/MemoryArrayWriter and on the model.",
     },
+    "C09": {
+        "rule": "random histories (≤ 24 / ≤ 40 ops) of grow / fill a not-yet-flushed slot / write_to_file(None|Some(entry)) on the real "
+                "DirSection over a recording destination with random pre-existing content and start offset; one third of the cases "
+                "inject an I/O failure or short writes at a random trait-level call. Non-trivial = at least two flushes; distinct = "
+                "distinct (result, #faults, start-at-end, op-kind sequence).",
+        "expected_tags": ["result.ok", "result.err", "result.err-new", "script.fault", "script.short", "start.atEnd", "start.zero", "op.patch"],
+        "trusted_base": ["the destination honours seek (not O_APPEND) and a write that returns Ok(n) stored exactly the first n bytes",
+                         "std::io::Write::write_all loop semantics (modelled; compared call by call)"],
+        "assumptions": ["start offset inside the destination's existing content (theorem hypothesis; the gap case is compared against the model only)",
+                        "stream writers patch only bytes that have not been flushed yet (true of every writer in the crate)"],
+        "explanation": "C09 theorems: mirror invariant kept by every operation under every destination script; failure post-condition; "
+                       "success corollary (destination from start == image, nothing before/beyond modified).",
+    },
+    "C10": {
+        "rule": "same generator as C09 (failures only, no short writes) with a snapshot of the destination after every trait-level call; "
+                "every snapshot taken after the first successful write is checked with the prefix-consistency predicate and compared with the "
+                "model's call-boundary states. Non-trivial = at least one directory entry published; distinct as in C09.",
+        "expected_tags": ["result.ok", "result.err", "script.fault", "snap.checked"],
+        "trusted_base": ["write calls are atomic (File / Cursor behaviour); torn writes are C09's failure post-condition"],
+        "assumptions": ["granularity = Write/Seek trait calls", "an entry and everything it references lie inside the image built when it is published (C01)"],
+        "explanation": "C10_flush: every destination state after a completed call of write_to_file is a consistent snapshot of the old or the new "
+                       "image; counterexample theorem for the pre-repair order.",
+    },
 }
+
+NOT_APPLICABLE = {}
+HOOK_COMMITS = ["8536883"]
